@@ -311,7 +311,7 @@ CONTRACTS.append(Contract(
     modifies=lambda c: BD_MEMO))
 
 # ---------------------------------------------------------------------------------------------------
-from pyvc.sorts import pjoin, basename, str_lt      # noqa: E402
+from pyvc.sorts import pjoin, basename, str_lt, TUP      # noqa: E402
 n_ = z3.Const('ex!n', StrS)
 ch_ = z3.Const('ex!c', StrS)
 i_, j_ = z3.Consts('ex!i ex!j', z3.IntSort())
@@ -384,3 +384,117 @@ CONTRACTS.append(Contract(
             Or(vfile(c, pjoin(c.dir_, n_), c.created_files, 'new'),
                vdir(c, pjoin(c.dir_, n_), c.created_files, 'new')))))])},
 ))
+
+
+# ===================================================================================================
+# walk (C04: "walk agrees with list_dir/is_dir/is_file recursively")
+WENT = TUP(STR, LIST(STR), LIST(STR))        # (directory, subdirectories, subfiles)
+WS = WENT.sort()
+wi_ = z3.Const('ex!wi', z3.IntSort())
+
+
+def entry_ok(c, e, cf, st='old'):
+    """every name listed under a directory is what the entry says it is, in the virtual view"""
+    d, ds, fs = WS.t0(e), WS.t1(e), WS.t2(e)
+    return And(
+        ForAll([n_], Implies(z3.Contains(fs, z3.Unit(n_)), vfile(c, pjoin(d, n_), cf, st))),
+        ForAll([n_], Implies(z3.Contains(ds, z3.Unit(n_)), vdir(c, pjoin(d, n_), cf, st))))
+
+
+we_ = z3.Const('ex!we', WS)
+# "entry e agrees with the virtual view", as a predicate symbol over (entry, executor, overlay,
+# virtual state, real file system): its definition is the `def-` clause of the contracts below, so
+# obligations about lists of entries do not drag the (large) view formula along
+EOK = z3.Function('walk_entry_ok', WS, z3.DeclareSort('Obj') if False else EX.sort(), CFO.sort(),
+                  z3.IntSort(), z3.ArraySort(StrS, K_FILE.sort()), z3.BoolSort())
+
+
+def eok(c, e, st='old'):
+    g = c.gold if st == 'old' else c.gnew
+    return EOK(e, c.self, c.created_files, g('vstate'), g('fs_kind'))
+
+
+def eok_def(c):
+    return [('def-entry-ok', ForAll([we_], eok(c, we_) == entry_ok(c, we_, c.created_files)))]
+
+
+def new_entries_ok(c, old_results, new_results, st='old'):
+    """membership form (quantified facts over seq.nth are not instantiated reliably): every entry
+    of the new list that is not an entry of the old one agrees with the view"""
+    return ForAll([we_], Implies(
+        And(z3.Contains(new_results, z3.Unit(we_)), Not(z3.Contains(old_results, z3.Unit(we_)))),
+        eok(c, we_, st)))
+
+
+def walk_growth(c):
+    r0, r1 = c.results, c.out('results')
+    return [
+        ('results-only-grow', z3.PrefixOf(r0, r1), ['C04']),
+        ('at-least-this-directory-is-reported', z3.Length(r1) > z3.Length(r0), ['C04']),
+        # C04 ("walk agrees with list_dir/is_dir/is_file recursively"): in every entry added, each
+        # listed file is a file and each listed subdirectory a directory of the virtual view
+        ('new-entries-agree-with-the-view', new_entries_ok(c, r0, r1), ['C04', 'C05']),
+        ('this-directory-first-or-last', If(
+            c.top_down, WS.t0(r1[z3.Length(r0)]) == c.dir_,
+            WS.t0(r1[z3.Length(r1) - 1]) == c.dir_), ['C04']),
+    ]
+
+
+APPEND_WALK = Contract(
+    M + '_append_walk', props=['C04', 'C05'],
+    params={'self': EX, 'dir_': STR, 'top_down': BOOL, 'created_files': CFO,
+            'results': LIST(WENT)},
+    requires=eok_def,
+    ensures=lambda c: no_effect(c) + unchanged_view(c) + walk_growth(c),
+    raises=[],                # OSErrors of the listing are swallowed: an unreadable directory is empty
+    modifies=lambda c: BD_MEMO,
+    local_types={'subdirs': LIST(STR), 'subfiles': LIST(STR), 'list_dir_superset': LIST(STR)},
+    loops={
+        0: LoopSpec(modifies=lambda c: BD_MEMO, inv=lambda c: [
+            ('no-fs-effect', c.gnew('eff') == c.gentry('eff')),
+            ('no-callback', c.gnew('ncalls') == c.gentry('ncalls')),
+            ('fs-unchanged', c.gnew('fs_kind') == c.gentry('fs_kind')),
+            ('virtual-state-unchanged', c.gnew('vstate') == c.gentry('vstate')),
+            ('collected-files-are-files', ForAll([n_], Implies(
+                z3.Contains(c.v('subfiles'), z3.Unit(n_)),
+                vfile(c, pjoin(c.dir_, n_), c.created_files, 'new')))),
+            ('collected-dirs-are-dirs', ForAll([n_], Implies(
+                z3.Contains(c.v('subdirs'), z3.Unit(n_)),
+                vdir(c, pjoin(c.dir_, n_), c.created_files, 'new'))))]),
+        1: LoopSpec(modifies=lambda c: BD_MEMO, inv=lambda c: [
+            ('no-fs-effect', c.gnew('eff') == c.gentry('eff')),
+            ('no-callback', c.gnew('ncalls') == c.gentry('ncalls')),
+            ('fs-unchanged', c.gnew('fs_kind') == c.gentry('fs_kind')),
+            ('virtual-state-unchanged', c.gnew('vstate') == c.gentry('vstate')),
+            ('results-only-grow', z3.PrefixOf(c.results, c.v('results'))),
+            ('entries-so-far-agree-with-the-view', new_entries_ok(c, c.results, c.v('results'))),
+            ('own-entry-first-when-top-down', Implies(c.top_down, And(
+                z3.Length(c.v('results')) > z3.Length(c.results),
+                WS.t0(c.v('results')[z3.Length(c.results)]) == c.dir_)))]),
+    },
+    notes='recursive; termination not verified')
+APPEND_WALK.inout = {'results': LIST(WENT)}
+CONTRACTS.append(APPEND_WALK)
+
+CONTRACTS.append(Contract(
+    M + 'walk', props=['C04', 'C05'],
+    params={'self': EX, 'dir_': STR, 'top_down': BOOL, 'created_files': CFO},
+    returns=LIST(WENT),
+    requires=eok_def,
+    ensures=lambda c: no_effect(c) + unchanged_view(c) + [
+        ('empty-unless-a-directory-of-the-view', Implies(
+            Not(vdir(c, c.dir_, c.created_files)), z3.Length(c.res) == 0), ['C04']),
+        ('a-directory-is-reported', Implies(
+            vdir(c, c.dir_, c.created_files), z3.Length(c.res) > 0), ['C04']),
+        # C04 ("walk agrees with list_dir/is_dir/is_file recursively")
+        ('every-entry-agrees-with-the-view', ForAll([we_], Implies(
+            z3.Contains(c.res, z3.Unit(we_)), eok(c, we_))), ['C04', 'C05']),
+        ('the-directory-itself-first-or-last', Implies(
+            vdir(c, c.dir_, c.created_files), If(
+                c.top_down, WS.t0(c.res[0]) == c.dir_,
+                WS.t0(c.res[z3.Length(c.res) - 1]) == c.dir_)), ['C04']),
+    ],
+    raises=[],
+    modifies=lambda c: BD_MEMO,
+    local_types={'results': LIST(WENT)},
+    notes='completeness (every directory of the view below dir_ is reported) is not proved'))
